@@ -309,7 +309,8 @@ def run(chk: Check) -> None:
     attr_cases = []
     n_attr = 1500 if quick else 20000
     for _ in range(n_attr):
-        dom = rng.choice([None, None, "example.com", ".example.com", "example.com:8080", "bücher.example", "localhost"])
+        dom = rng.choice([None, None, "example.com", ".example.com", "example.com:8080", "bücher.example", "localhost",
+                          "example.com.", "..example.com", ".example.com.", "a.b.:80", "localhost."])
         exp = rng.choice([None, None, "Thu, 01 Jan 2026 00:00:00 GMT", "x; Secure"])
         ma = rng.choice([None, None, 0, 3600, -1])
         path = rng.choice([None, "/", "/a b", "/a;b", "/é", "/%41", "/a,b=c"])
